@@ -140,6 +140,11 @@ class G:
 
         if constant or not self.coin(self.p["p_time_varying"]):
             return {"a": v()}
+        if fmt in ("rate", "probability", "number") and len(years) >= 4 and self.coin(0.2):
+            # arrivals that stop: positive at the start, ramping to exactly 0 and staying there (pulses / on-off histories downstream)
+            self.labels.add("data:stops-to-zero")
+            k = self.pick([2, 3])
+            return {"t": [years[1], years[k]], "v": [v(), 0.0]}
         ys = self.subset(years, min_size=1)
         ys = sorted(ys)
         self.labels.add("data:years%d" % min(len(ys), 3))
